@@ -110,8 +110,9 @@ Inductive rj :=
 | RArr (l : list rj)
 | RObj (m : list (list N * rj)).
 
-(* int conversion of SetInt(value): the argument is converted to int (32 bits, two's complement) *)
+(* SetInt(value) / SetUint(value): the argument is converted to int / unsigned (32 bits) *)
 Definition wrap32 (z : Z) : Z := ((z + 2147483648) mod 4294967296 - 2147483648)%Z.
+Definition wrapu32 (z : Z) : Z := (z mod 4294967296)%Z.
 
 (* scalar stored through the GenericValue constructors used by the array / object scopes
    (PushBack(T), RapidJsonNode(value)): int, unsigned, int64_t, uint64_t, double, bool: exact *)
@@ -125,12 +126,13 @@ Definition save_scalar_inner (t : ty) (v : val) : option rj :=
   | _, _ => None
   end.
 
-(* scalar stored by RapidJsonRootScope::SerializeValue: SetBool / SetInt64 / SetUint64 / SetInt
-   (every other integer type, uint32_t included) / SetDouble / SetNull / SetString *)
+(* scalar stored by RapidJsonRootScope::SerializeValue: SetBool / SetInt64 / SetUint64 / SetUint (the other unsigned
+   types) / SetInt (the other signed types) / SetDouble / SetNull / SetString *)
 Definition save_scalar_root (t : ty) (v : val) : option rj :=
   match t, v with
   | TyInt I64, VInt z => Some (RInt z)
   | TyInt U64, VInt z => Some (RInt z)
+  | TyInt U8, VInt z | TyInt U16, VInt z | TyInt U32, VInt z => Some (RInt (wrapu32 z))
   | TyInt _, VInt z => Some (RInt (wrap32 z))
   | _, _ => save_scalar_inner t v
   end.
@@ -216,14 +218,14 @@ Fixpoint accept (d : rj) : bool * list wev :=
     let (ok, ev) := go true m in (ok, WTok TLBrace :: ev)
   end.
 
-(* RapidJsonRootScope::Finalize(): mRootJson.Accept(writer) — the bool it returns is dropped,
-   whatever reached the buffer / stream is the document *)
+(* RapidJsonRootScope::Finalize(): CheckWriterResult(mRootJson.Accept(writer)) — a writer failure is raised as
+   SerializationException(OutOfRange); otherwise what reached the buffer / stream is the document *)
 Inductive fres := FDoc (ev : list wev) | FError.
 
-Definition finalize_json (d : rj) : fres := let (_, ev) := accept d in FDoc ev.
+Definition finalize_json (d : rj) : fres := let (ok, ev) := accept d in if ok then FDoc ev else FError.
 
-(* the repaired Finalize() (suggested patch): a writer failure is raised *)
-Definition finalize_json_checked (d : rj) : fres := let (ok, ev) := accept d in if ok then FDoc ev else FError.
+(* the code before the repair (finding F26): the result of Accept was dropped *)
+Definition finalize_json_unchecked (d : rj) : fres := let (_, ev) := accept d in FDoc ev.
 
 (* ------------------------------------------------------------------ reading a document *)
 
@@ -298,7 +300,7 @@ Section Oracles.
       | RDbl b => Loaded (VDbl b)
       | _ => mismatch o
       end
-    | TyStr => match d with RStr s => Loaded (VStr s) | _ => mismatch o end
+    | TyStr => match d with RNull => NotLoaded | RStr s => Loaded (VStr s) | _ => mismatch o end
     | _ => mismatch o
     end.
 
@@ -307,13 +309,6 @@ Section Oracles.
     match m with
     | [] => None
     | (k', d) :: r => if key_eqb k k' then Some d else find_member r k
-    end.
-
-  (* the name as the map loader sees it: VisitKeys hands over name.GetString(), a C string *)
-  Fixpoint c_str (k : list N) : list N :=
-    match k with
-    | [] => []
-    | c :: r => if c =? 0 then [] else c :: c_str r
     end.
 
   (* std::map::try_emplace: insert in key order unless the key is present *)
@@ -356,7 +351,7 @@ Section Oracles.
            match ms with
            | [] => Loaded (VObj acc)
            | (k, _) :: r =>
-             let ck := c_str k in
+             let ck := k in                       (* VisitKeys hands over the name with its length *)
              match find_member m ck with
              | None => go r (map_insert ck (default e) acc)          (* entry created, value not found *)
              | Some x =>
@@ -367,6 +362,7 @@ Section Oracles.
                end
              end
            end) m []
+      | RNull => NotLoaded
       | _ => mismatch o
       end
     | TyObj fields =>
@@ -390,6 +386,7 @@ Section Oracles.
                end
              end
            end) fields
+      | RNull => NotLoaded
       | _ => mismatch o
       end
     | _ => load_scalar o t d
@@ -564,11 +561,24 @@ Section XmlOracles.
 
   (* ---------------------------------------------------------------- what pugixml hands to the adapter *)
 
-  (* parse_default: white-space-only character data is dropped; character data split by a comment, a processing
-     instruction or a CDATA section stays split (separate pcdata / cdata nodes); comments, PIs and the declaration
-     are not kept *)
-  Definition drop_ws_tokens (ts : list xtok) : list xtok :=
-    filter (fun t => match t with XTxt s => negb (ws_only s) | _ => true end) ts.
+  (* parse_default | parse_ws_pcdata_single: white-space-only character data is dropped unless it is directly followed
+     by the end tag and its element has no child so far; character data split by a comment, a processing instruction
+     or a CDATA section stays split (separate pcdata / cdata nodes); comments, PIs and the declaration are not kept *)
+  Fixpoint px_filter (stack : list bool) (ts : list xtok) : list xtok :=
+    match ts with
+    | [] => []
+    | XOpen n a :: r => XOpen n a :: px_filter (false :: match stack with _ :: st => true :: st | [] => [] end) r
+    | XEmpty n a :: r => XEmpty n a :: px_filter (match stack with _ :: st => true :: st | [] => [] end) r
+    | XClose n :: r => XClose n :: px_filter (match stack with _ :: st => st | [] => [] end) r
+    | XTxt s :: r =>
+      if ws_only s then
+        let sole := match r, stack with XClose _ :: _, false :: _ => true | _, _ => false end in
+        if sole then XTxt s :: px_filter (match stack with _ :: st => true :: st | [] => [] end) r
+        else px_filter stack r
+      else XTxt s :: px_filter (match stack with _ :: st => true :: st | [] => [] end) r
+    end.
+
+  Definition drop_ws_tokens (ts : list xtok) : list xtok := px_filter [] ts.
 
   Definition px_parse (s0 : list N) : xres :=
     let s := norm_eol s0 in
@@ -686,13 +696,20 @@ Section XmlOracles.
     | _ :: r => find_child r k
     end.
 
-  (* OpenArrayScope / OpenObjectScope below the root: the first child must be an element *)
-  Definition first_is_elem (ch : list xnode) : bool := match ch with XElem _ _ _ :: _ => true | _ => false end.
+  (* OpenArrayScope / OpenObjectScope below the root: no child at all (an empty container, an object with attributes
+     only) or the first child is an element *)
+  Definition first_is_elem (ch : list xnode) : bool := match ch with [] => true | XElem _ _ _ :: _ => true | _ => false end.
 
   (* root = true: the scope is opened by the root scope, which only requires an element *)
   Fixpoint load_xml_inner (o : opts) (root : bool) (t : ty) (x : xnode) {struct t} : lout :=
     match x with
-    | XText _ => NotLoaded
+    | XText s =>
+      (* only an item of an array scope can be a text node: the scope openers require an element (mismatch policy),
+         LoadValue reads the text of the node itself *)
+      match t with
+      | TyVec _ | TyMap _ | TyObj _ => mismatch o
+      | _ => load_xml_scalar o t [XText s]
+      end
     | XElem _ attrs ch =>
       match t with
       | TyVec e =>
